@@ -532,7 +532,7 @@ impl Matcher for KittyKeyboardMatcher {
 
     fn decode(&self, data: &[u8]) -> Option<Self::Item> {
         let data = &data[2..data.len() - 1]; // skip CSI and `u`
-        if data[0] == b'?' {
+        if data.first() == Some(&b'?') {
             let level = number_decode(&data[1..data.len()])?;
             return Some(TerminalEvent::KeyboardLevel(level));
         }
